@@ -249,6 +249,11 @@ func (c *Ctx) buildAliases() error {
 		if o.Name() == name {
 			return
 		}
+		// only unexported identifiers: renaming an exported one changes the API (and, for struct fields, what
+		// reflection-based code such as the default resolver sees) — that is not a behaviour-preserving rename
+		if ast.IsExported(name) || o.Exported() {
+			return
+		}
 		aliasMu.Lock()
 		aliasName[o] = name
 		aliasMu.Unlock()
